@@ -72,8 +72,12 @@ def generate(rng: random.Random, profile: Optional[Dict[str, Any]] = None) -> Di
         return {"engine": "e5", "kind": "ignore", "x": xi, "safe": rng.random() < 0.25, "keep_imports": rng.random() < 0.2}
     # direct back-end
     for _ in range(50):
-        src = e1_txn.SrcGen(rng).module()
-        if "pyrefact" in src:
+        src = e1_txn.SrcGen(rng, fstrings=rng.random() < 0.5).module()
+        try:
+            ast.parse(src)
+        except SyntaxError:
+            continue
+        if "pyrefact" in src or rng.random() < 0.3:
             break
     tree = ast.parse(src)
     stmts, exprs = e1_txn.enumerate_nodes(tree)
@@ -90,10 +94,10 @@ def generate(rng: random.Random, profile: Optional[Dict[str, Any]] = None) -> Di
         return True
 
     for j in range(n):
-        a = rng.choice(["remove", "remove", "replace_stmt", "replace_expr", "add", "move"])
+        a = rng.choice(["remove", "remove", "replace_stmt", "replace_expr", "add", "move", "reemit", "reemit"])
         if a == "replace_expr" and not exprs:
             a = "remove"
-        if a in ("remove", "replace_stmt", "move"):
+        if a in ("remove", "replace_stmt", "move", "reemit"):
             i = rng.randrange(len(stmts))
             if not free(stmts[i]):
                 continue  # the edits of one call never overlap (as in the real callers)
@@ -101,12 +105,17 @@ def generate(rng: random.Random, profile: Optional[Dict[str, Any]] = None) -> Di
             i = rng.randrange(len(exprs))
             if not free(exprs[i]):
                 continue
-        if a == "remove":
+        if a == "reemit":
+            # the statement is emitted again inside a new block (as early_continue / swap_if_else do):
+            # its string literals are re-rendered and their original spelling is restored afterwards
+            actions.append(["reemit", i, f"R{j}"])
+        elif a == "remove":
             actions.append(["remove", i])
         elif a == "replace_stmt":
             actions.append(["replace_stmt", i, f"R{j} = 0"])
         elif a == "replace_expr":
-            actions.append(["replace_expr", i, f"R{j}"])
+            # fault: a replacement whose text can not parse (the back-end's own rollback must take it back)
+            actions.append(["replace_expr", i, f"R{j}"] + (["poison"] if rng.random() < 0.3 else []))
         elif a == "add":
             st = stmts[rng.randrange(len(stmts))]
             actions.append(["add", st.lineno - 1, st.col_offset, f"A{j} = 0"])
@@ -281,9 +290,17 @@ def execute(case: Dict[str, Any]) -> Dict[str, Any]:
                 node = stmts[a[1]]
                 new = ast.parse(a[2]).body[0]
                 replacements[node] = ast.copy_location(new, node)
+            elif a[0] == "reemit":
+                node = stmts[a[1]]
+                wrapped = ast.If(test=ast.Name(id=a[2], ctx=ast.Load()), body=[node], orelse=[])
+                replacements[node] = ast.copy_location(wrapped, node)
             elif a[0] == "replace_expr":
                 node = exprs[a[1]]
-                replacements[node] = ast.copy_location(ast.parse(a[2], mode="eval").body, node)
+                if len(a) > 3 and a[3] == "poison":
+                    replacements[node] = ast.copy_location(ast.Name(id=a[2] + " (]", ctx=ast.Load()), node)
+                    stats.inc("fault.poison_replacement_direct_backend")
+                else:
+                    replacements[node] = ast.copy_location(ast.parse(a[2], mode="eval").body, node)
             else:
                 new = ast.parse(a[3]).body[0]
                 new.lineno, new.col_offset = a[1], a[2]
@@ -303,6 +320,18 @@ def execute(case: Dict[str, Any]) -> Dict[str, Any]:
             stats.inc("direct.calls_checked")
             if out != x:
                 stats.inc("direct.changed")
+            # C03: replacements go through _replace_nodes, which takes an unparsable result back;
+            # removals / additions have no such guard of their own and are not judged here
+            if replacements and not removals and not additions:
+                stats.inc("direct.replacement_only_calls_validity_checked")
+                try:
+                    ast.parse(out)
+                except (SyntaxError, ValueError):
+                    violations.append({
+                        "class": "direct-backend-returned-invalid-text",
+                        "detail": f"alter_code(replacements only) returned unparsable text for a parsable input (actions {case['actions']})",
+                        "props": ["C03"],
+                    })
             missing = _verbatim(lines, out)
             if missing is not None:
                 removal_touches = False
@@ -317,6 +346,8 @@ def execute(case: Dict[str, Any]) -> Dict[str, Any]:
                 }
                 if removal_touches:
                     v["finding_key"] = "direct-backend:remove_nodes-applied-to-ignored-line"
+                elif removals:
+                    v["finding_key"] = "direct-backend:remove_nodes-disturbs-line-after-emptied-or-semicolon-body"
                 violations.append(v)
     sig = f"{kind}|{C.sha(x)[:10]}"
     log.add("verdict", [v["class"] for v in violations])
